@@ -509,7 +509,7 @@ def cached_val_sweep(model: SrcModel, tier: str):
         n = len(cs)
         jobs = [(str(model.repo), tuple(sorted(model.overlay.items())), tier, list(range(i, n, 48))) for i in range(48)]
         problems, errors = [], []
-        with ProcessPoolExecutor(max_workers=min(16, os.cpu_count() or 4)) as ex:
+        with ProcessPoolExecutor(max_workers=int(os.environ.get("VSTAT_WORKERS") or min(16, os.cpu_count() or 4))) as ex:
             for p, e in ex.map(_worker, jobs):
                 problems.extend(p)
                 errors.extend(e)
